@@ -41,6 +41,8 @@ def floor_alphabet(mid_k: int) -> list:
         acts.append({"op": "set", "obj": oid, "name": "if_style", "value": "if_expr"})
     acts.append({"op": "set", "obj": "o1", "name": "expr_wrapper", "value": "bogus"})
     acts.append({"op": "reseed", "n": 1})
+    acts.append({"op": "churn", "n": 64, "name": "expr_wrapper", "value": "list", "gc": False})
+    acts.append({"op": "del", "obj": "o1", "gc": True})
     acts.append({"op": "abort_conv", "prog": FLOOR_PROGS[0], "obj": None, "mode": "line", "k": mid_k, "exc": "SimAbort"})
     acts.append({"op": "conv", "prog": "fail:fail_try", "obj": "o1"})
     convs = []
